@@ -2,9 +2,12 @@
 # usage: revert_check.sh <fix-commit> <check-id> [check args]  — reverse-applies one fix: commit to
 # /repo's working tree, runs the check (must exit 1), restores the tree.
 c=$1; id=$2; shift 2
-cd /repo || exit 2
+# REVERT_REPO: a scratch worktree of /repo to work in instead of /repo itself (default /repo)
+R=${REVERT_REPO:-/repo}
+cd $R || exit 2
+[ "$R" != /repo ] && git checkout -q --detach $(git -C /repo rev-parse HEAD)
 git status --short | grep -q . && { echo "repo not clean"; exit 2; }
 git show $c -- lib | git apply -R || { echo "cannot reverse-apply $c"; exit 2; }
-cd /verif && VERIF_EVIDENCE_DIR=/tmp/gosmt-evidence ./check $id "$@" > /tmp/revert_$id.log 2>&1; rc=$?
-git -C /repo checkout -- .
+cd /verif && VERIF_EVIDENCE_DIR=/tmp/gosmt-evidence ./check $id --repo $R "$@" > /tmp/revert_$id.log 2>&1; rc=$?
+git -C $R checkout -- .
 echo "revert $c: $id exit=$rc $(grep -E 'counterexample' /tmp/revert_$id.log | head -1 | cut -c1-220)"
